@@ -159,7 +159,8 @@ impl Reader {
     /// Routes into the body state of a flow that differ in what happened before the head:
     /// 0 plain GET; 1 POST with Expect, the caller gave up waiting, and the late `100 Continue` sits in the same window as the head;
     /// 2 the same but the 100 arrives in a call of its own; 3 POST with Expect, the 100 was seen while awaiting it;
-    /// 4 the head arrives in two pieces (the first piece is re-presented, as nothing of it is consumed);
+    /// 4 the head arrives in two pieces (the first piece is re-presented, as nothing of it is consumed); 6, 7, 8 the same with the cut
+    /// one, two and three bytes before the end of the head (inside its final CR LF CR LF);
     /// 5 POST with Expect that the server refuses with this very response (the body read belongs to the refusal).
     /// The caller learns where the head ends only from the reported counts, so they must add up to the bytes before the body.
     pub fn new_route(api: Api, route: usize, req_v10: bool, req_close: bool, head: &[u8]) -> Result<Reader, String> {
@@ -187,9 +188,10 @@ impl Reader {
                 vec![&win[..]]
             }
             2 => vec![C100, head],
-            4 => {
+            4 | 6 | 7 | 8 => {
                 win.extend_from_slice(head);
-                vec![&head[..head.len() / 2], &win[..]]
+                let cut = if route == 4 { head.len() / 2 } else { head.len() - (route - 5) };
+                vec![&head[..cut], &win[..]]
             }
             _ => vec![head],
         };
